@@ -73,5 +73,9 @@ RecordedOnly == {"recorded"}
 Replays == {"recorded", "replay"}
 StripOnly == {"strip"}
 
+CodeAcks == {[over |-> 1, bad |-> 1]}                           \* the code: Error_Unexpected
+NullAcks == {[over |-> 0, bad |-> 1], [over |-> 1, bad |-> 0]}   \* what if one of them were answered with Error_Null
+CorruptOnly == {"corrupt"}
+
 AllKinds == {"replace", "inject", "stall", "kill", "cancel"}
 =============================================================================
